@@ -157,8 +157,13 @@ impl ConnectionManager {
                     }
                 }
                 connecting = self.endpoint.accept() => {
-                    if let Some(connecting) = connecting {
-                        self.handle_incoming(connecting);
+                    match connecting {
+                        Some(connecting) => self.handle_incoming(connecting),
+                        // The endpoint can no longer accept connections (e.g. its driver ended
+                        // after a fatal socket error or because the runtime is going away).
+                        // `accept` would yield `None` again right away, forever, so instead of
+                        // spinning leave the event loop and shut the network down.
+                        None => break,
                     }
                 },
                 Some(connecting_output) = self.pending_connections.join_next() => {
